@@ -48,6 +48,7 @@ type State struct {
 	preHeap      map[string]string // heap at the most recent loop cut
 	facts        []strFact         // string decomposition facts valid on this path
 	known        map[string]string // known slice elements: region|id|index -> term
+	quantDepth   int               // >0 while evaluating under a quantifier (no path assumptions may be added)
 }
 
 func (st *State) clone() *State {
@@ -226,11 +227,18 @@ func (st *State) loadAt(root types.Type, prefix string, t types.Type, ref string
 		}
 		return Val{K: KStruct, Typ: t, Fs: fs}
 	case *types.Slice:
-		return Val{K: KSlice, Typ: t, Fs: []Val{
+		// slices stored in the heap always start at offset 0 (storeAt refuses re-sliced values), which keeps
+		// element indices free of arithmetic and quantifier instantiation reliable
+		v := Val{K: KSlice, Typ: t, Fs: []Val{
 			term(st.readLeaf(root, join("#id"), "Int", ref), tInt),
-			term(st.readLeaf(root, join("#off"), "Int", ref), tInt),
+			term("0", tInt),
 			term(st.readLeaf(root, join("#len"), "Int", ref), tInt),
 		}}
+		// well-formed slice headers (type invariant of the heap)
+		if st.quantDepth == 0 {
+			st.assume(and("(>= "+v.Fs[0].T+" 0)", "(>= "+v.Fs[2].T+" 0)", implies(eq(v.Fs[0].T, "0"), eq(v.Fs[2].T, "0"))))
+		}
+		return v
 	}
 	panic(fmt.Sprintf("loadAt: unsupported %s", t))
 }
@@ -258,8 +266,11 @@ func (st *State) storeAt(root types.Type, prefix string, t types.Type, ref strin
 		if v.K != KSlice {
 			panic(subsetErr{"store of non-slice value into slice location"})
 		}
+		if v.Fs[1].T != "0" {
+			panic(subsetErr{"a re-sliced slice (non-zero offset) is stored in the heap"})
+		}
 		st.writeLeaf(root, join("#id"), "Int", ref, v.Fs[0].T)
-		st.writeLeaf(root, join("#off"), "Int", ref, v.Fs[1].T)
+		st.writeLeaf(root, join("#off"), "Int", ref, "0")
 		st.writeLeaf(root, join("#len"), "Int", ref, v.Fs[2].T)
 	default:
 		panic(subsetErr{fmt.Sprintf("storeAt: unsupported %s", t)})
